@@ -59,7 +59,15 @@ EXPLANATION = (
     "advanced by the width (or as '>' + 6 * format) and stored under the field names in packing order; the writers' "
     "fieldsize / fieldstruct / first data offset derive from their format; split_netstring also checks the announced "
     "payload length, returns only with >= numstrings elements and, with a required trailer, only under data[position:] == "
-    "trailer; unpack_extension converts the int keys under `key in d` and returns the dictionary it filled.  Undecided: "
+    "trailer; unpack_extension converts the int keys under `key in d` and returns the dictionary it filled; (13, = C25.10) stored "
+    "lease records survive the relocation of the extra-lease block: MutableShareFile._change_container_size reads count field + "
+    "num_extra_leases * LEASE_SIZE bytes at the header's extra-lease offset before it modifies the file, writes exactly those bytes "
+    "where it points the header to, and writes nothing afterwards that may overlap the copy (old and new block overlap whenever "
+    "the container grows by less than the block size; only a fill of at most new - position bytes is provably disjoint); (14) "
+    "MutableShareFile._write_share_data writes into the data region only after _change_container_size(f, >= offset + len(data)) "
+    "or under the fact (branch or assertion) that offset + len(data) fits below the extra-lease offset / inside the existing "
+    "data, and every such write (the data, a b'\\x00' * n / bytes(n) fill) ends at or before DATA_OFFSET + offset + len(data) - "
+    "so it cannot land on the extra-lease count and records that follow the data.  Undecided: "
     "the positional arithmetic of base62 and of Python's base64 module, the section arithmetic of the immutable share "
     "writers (x += size between offsets) and their FileTooLargeError bounds, the offset sanity checks of "
     "Share._satisfy_offsets (share/block hash sizes), the field layout of SDMF/MDMF shares beyond the version dispatch "
@@ -1728,6 +1736,172 @@ def run(ctx: Context):
 
     _rule_transfer(ctx, idx, F)
     _rule_offset_table(ctx, idx, F)
+    _rule_records_stay(ctx, idx)
+
+
+# ---- 13 / 14. stored lease records stay decodable when the share data next to them is written --------------
+def _edge_lin(fnm, n, lab):
+    """(op, Poly) with ``0 op poly`` holding on the edge (n, lab), op in '<' '<=' ; None otherwise.  Pass edges of
+    assert / precondition count as well (the other edge raises).  A local with several reaching definitions that are
+    all the same call (a header field read again after the container grew) is spelt as that call."""
+    if n.kind != "test" or not isinstance(lab, tuple):
+        return None
+    e, pol = n.ast, lab[0] == "T"
+    while isinstance(e, ast.UnaryOp) and isinstance(e.op, ast.Not):
+        e, pol = e.operand, not pol
+    if not isinstance(e, ast.Compare) or len(e.ops) != 1:
+        return None
+    op = type(e.ops[0])
+    neg = {ast.Lt: ast.GtE, ast.LtE: ast.Gt, ast.Gt: ast.LtE, ast.GtE: ast.Lt}
+    if op not in neg:
+        return None
+    if not pol:
+        op = neg[op]
+    l, r_ = e.left, e.comparators[0]
+    if op in (ast.Gt, ast.GtE):
+        op = {ast.Gt: ast.Lt, ast.GtE: ast.LtE}[op]
+        l, r_ = r_, l
+    env = fnm.env_at(n)
+    ren = {}
+    for name, ds in fnm.rd.get(n.id, {}).items():
+        if name in env.defs or len(ds) < 2 or any(d < 0 for d in ds):
+            continue
+        vals = [fnm._def_value(fnm.cfg.nodes[d], name) for d in ds]
+        if all(isinstance(v, ast.Call) for v in vals) and len({norm_plain(v) for v in vals}) == 1:
+            ren[name] = norm_plain(vals[0])
+    nz = Normaliser(Env(None, extra=env.defs, rename=ren, depth=fnm.depth)) if ren else fnm.at(n)
+    try:
+        return ("<" if op is ast.Lt else "<=", nz.poly(r_) - nz.poly(l))
+    except Exception:
+        return None
+
+
+def _rule_records_stay(ctx, idx):
+    # 13: the relocation of the extra-lease block when the container grows.  C25.10 decides exactly the condition
+    # this property needs (the bytes that were encoded are the bytes found at the place the header names afterwards).
+    ctx.include("C25", ["C25.10"], "C38.13")
+
+    with ctx.rule("C38.14", "R1/R5", "MutableShareFile._write_share_data: every write into the data region (zero fill, the data) "
+                  "happens only after the container was grown to offset + len(data) or under the fact that offset + len(data) "
+                  "already fits (below the extra-lease offset / inside the existing data), and ends at or before "
+                  "DATA_OFFSET + offset + len(data): otherwise it lands on the extra-lease block that follows the data and the "
+                  "stored lease records no longer decode", expected=3) as r:
+        fn = idx.func(MSF + "._write_share_data")
+        ps = first_positional_params(fn)
+        if len(ps) < 3:
+            raise AnchorVanished("%s(f, offset, data)" % fn.qual)
+        fp, off, data = ps[:3]
+        cfg = fn.cfg()
+        fnm = FlowNorm(fn)
+        P0 = Normaliser(Env(None, depth=0))
+        pp = lambda s: P0.poly(parse_expr(s))
+        LEN = pp("len(%s)" % data)
+        END = pp("%s + len(%s)" % (off, data))
+        TOP = pp("self.DATA_OFFSET + %s + len(%s)" % (off, data))
+        FITS = (pp("self._read_extra_lease_offset(%s)" % fp) - TOP, pp("self._read_data_length(%s)" % fp) - END)
+
+        def file_calls(n):
+            return [c for c in node_calls(n) if (isinstance(c.func, ast.Attribute) and attr_path(c.func.value) == fp)
+                    or any(attr_path(a) == fp for a in c.args) or any(attr_path(k.value) == fp for k in c.keywords)]
+
+        def direct(n, kinds):
+            return [c for c in file_calls(n) if isinstance(c.func, ast.Attribute) and attr_path(c.func.value) == fp and c.func.attr in kinds]
+
+        def nonneg_const(p):
+            return p.is_const() and p.const_value() >= 0
+
+        def grown(n):
+            for c in node_calls(n):
+                if call_name(c) == "self._change_container_size" and len(c.args) == 2 and attr_path(c.args[0]) == fp:
+                    try:
+                        if nonneg_const(fnm.at(n).poly(c.args[1]) - END):
+                            return True
+                    except Exception:
+                        pass
+            return False
+
+        def fits(n, lab):
+            f_ = _edge_lin(fnm, n, lab)
+            return f_ is not None and any(nonneg_const(x - f_[1]) for x in FITS)   # 0 <= fact <= x
+
+        # file position on entry to each node: the fp.seek(E) node that set it and was not disturbed since, else -1
+        def tr_pos(n, lab, nxt, st):
+            if lab == "exc":
+                return None
+            fc = file_calls(n)
+            if not fc or all(c in direct(n, ("flush", "tell", "fileno")) for c in fc):
+                return st
+            sk = [c for c in direct(n, ("seek",)) if len(c.args) == 1 and not c.keywords]
+            if len(sk) == 1:
+                inner = {id(x) for x in ast.walk(sk[0].args[0])}
+                if all(c is sk[0] or id(c) in inner for c in fc):
+                    return n.id
+            return -1
+        pvis, _ppar = explore(cfg, -1, tr_pos)
+        r.count(len(pvis))
+
+        def positions(n):
+            out = set()
+            for (nid, st) in pvis:
+                if nid == n.id:
+                    try:
+                        out.add(fnm.at(cfg.nodes[st]).poly(direct(cfg.nodes[st], ("seek",))[0].args[0]) if st >= 0 else None)
+                    except Exception:
+                        out.add(None)
+            return out
+
+        def written_length(n, e):
+            """number of bytes of the value written at node n, as a Poly; None when it is not of a known shape"""
+            for _i in range(4):
+                if isinstance(e, ast.Name) and e.id != data:
+                    ds = fnm.rd.get(n.id, {}).get(e.id)
+                    if not ds or len(ds) != 1 or min(ds) < 0:
+                        return None
+                    n = cfg.nodes[min(ds)]
+                    e = fnm._def_value(n, e.id)
+            if isinstance(e, ast.Name) and e.id == data and set(fnm.rd.get(n.id, {}).get(data, ())) <= {-1}:
+                return LEN
+            cnt = None
+            if isinstance(e, ast.BinOp) and isinstance(e.op, ast.Mult):
+                for a, b in ((e.left, e.right), (e.right, e.left)):
+                    if isinstance(a, ast.Constant) and isinstance(a.value, bytes) and len(a.value) == 1:
+                        cnt = b
+            elif isinstance(e, ast.Call) and isinstance(e.func, ast.Name) and e.func.id == "bytes" and len(e.args) == 1 and not e.keywords \
+                    and not isinstance(e.args[0], ast.Constant):
+                cnt = e.args[0]
+            if cnt is None:
+                return None
+            try:
+                return fnm.at(n).poly(cnt)
+            except Exception:
+                return None
+
+        gn = [n for n in cfg.nodes if grown(n)]
+        for n in gn:
+            r.site(fn, n.ast, "container growth")
+        wn = [(n, c) for n in cfg.nodes for c in direct(n, ("write", "writelines", "truncate"))]
+        if not wn:
+            raise AnchorVanished("%s no longer writes to %s" % (fn.qual, fp))
+        for (W, wc) in wn:
+            r.site(fn, wc, "data-region write")
+            # (a) room was made (or known to exist) before the write
+            for (t, w) in find_path_avoiding(cfg, lambda x, W=W: x is W, gate_node=grown, gate_edge=fits, skip_exc_edges=True):
+                r.violation(fn, fn.loc(wc), "_write_share_data writes %s without having grown the container to %s + len(%s) first "
+                            "(self._change_container_size(%s, %s + len(%s))) and without the fact that the write fits below the "
+                            "extra-lease offset: the bytes land on the extra-lease block, whose lease records then no longer decode "
+                            "(and _change_container_size later moves the overwritten block) (path: %s)" % (
+                                src(fn, wc.args[0] if wc.args else wc), off, data, fp, off, data, w.brief()), w)
+            # (b) the write ends inside the room that was made
+            ln = written_length(W, wc.args[0]) if (wc.func.attr == "write" and len(wc.args) == 1 and not wc.keywords) else None
+            ps_ = positions(W)
+            if ln is None or len(ps_) != 1 or None in ps_ or len(file_calls(W)) != 1:
+                raise AnalysisError("%s: cannot bound the write %s (position %s)" % (fn.qual, src(fn, wc), sorted(map(str, ps_))))
+            slack = TOP - (next(iter(ps_)) + ln)
+            ok = all(k in ((), tuple(LEN.t)[0]) and v >= 0 for k, v in slack.t.items())
+            r.require(ok, fn, fn.loc(wc), "_write_share_data writes %s bytes at %s: that ends at %s, not at or before %s (the end of the "
+                      "room the container growth made); the excess lands on the extra-lease block and the stored lease records "
+                      "(count field first) no longer decode" % (ln, next(iter(ps_)), next(iter(ps_)) + ln, TOP))
+        r.count(len(cfg.nodes) * len(wn))
 
 
 # ---- 12. immutable share offset table: per-version layout agreement -------------------------
